@@ -8,6 +8,10 @@
 //   cfg <kind:set|mset|map|mmap> <leaf_slots> <inner_slots> <binsearch:0|1> <order:0 less|1 greater|2 half> [<order of register 1>]
 // Two container registers 0/1 of the configured type exist from `cfg` on.
 //
+// By-reference operations (answered like the plain ones): insref/inshref r <rank> = insert(x) / insert(hint, x)
+// with x a reference to the element stored at <rank>; er1ref/eraref r <rank> = erase_one/erase with a reference to
+// the stored key; findref/lbref/ubref/countref r <rank> likewise.
+//
 // Answer of a query op:     <ret>
 // Answer of a mutating op:  <ret> ; a=<+leaf>,<-leaf>,<+inner>,<-inner> ; T0 <dump> ; T1 <dump> ; A=<i0>,<i1>[ <i>:<+l>,<-l>,<+i>,<-i>]*
 //   A: the allocator instance (arena tag) each register's tree holds and, per instance used by the operation,
@@ -52,7 +56,29 @@
 #include <tlx/die/core.hpp>
 
 typedef long long ll;
-using vh::Tracked;
+// vh::Tracked with observable move semantics: moving from an object empties it (poison value, flag); copying,
+// assigning from, comparing or printing a moved-from object is reported through the element ledger.  A container
+// may move its elements around internally as long as it never uses what it has moved from.
+struct Tracked : vh::Tracked {
+    bool moved;
+    Tracked() : vh::Tracked(), moved(false) {}
+    explicit Tracked(long long v) : vh::Tracked(v), moved(false) {}
+    Tracked(const Tracked& o) : vh::Tracked(static_cast<const vh::Tracked&>(o)), moved(o.moved) { o.used("copy"); }
+    Tracked(Tracked&& o) noexcept : vh::Tracked(static_cast<vh::Tracked&&>(o)), moved(o.moved) { o.poison(); }
+    Tracked& operator=(const Tracked& o) {
+        o.used("assignment");
+        vh::Tracked::operator=(static_cast<const vh::Tracked&>(o)); moved = o.moved; return *this;
+    }
+    Tracked& operator=(Tracked&& o) noexcept {
+        vh::Tracked::operator=(static_cast<vh::Tracked&&>(o)); moved = o.moved;
+        if (this != &o) o.poison();
+        return *this;
+    }
+    void poison() { moved = true; val = -555555; if (heap) *heap = val; }
+    void used(const char* what) const {
+        if (moved) vh::Ledger::get().errors.push_back(std::string(what) + " of a moved-from object");
+    }
+};
 
 extern bool g_c01, g_c02;
 
@@ -70,6 +96,7 @@ struct Cmp {
     explicit Cmp(int m) : mode(m) {}
     bool operator()(const Tracked& a, const Tracked& b) const {
         a.check("compare"); b.check("compare");
+        a.used("comparison"); b.used("comparison");
         return lessv(mode, a.val, b.val);
     }
 };
@@ -364,6 +391,10 @@ struct Runner : IRunner {
         if constexpr (isMap) return value_type(Tracked(k), Tracked(v));
         else { (void) v; return Tracked(k); }
     }
+    static const Tracked& keyof(const value_type& x) {
+        if constexpr (isMap) return x.first;
+        else return x;
+    }
     static Ent ent(const value_type& x) {
         if constexpr (isMap) {
             if (!x.first.is_alive() || !x.second.is_alive()) return Ent(-777, -777);
@@ -618,6 +649,29 @@ struct Runner : IRunner {
         ll k = 0, v = 0;
         std::ostringstream os;
 
+        if (op == "insref" || op == "inshref") {
+            // insert(x) / insert(hint, x) with x a REFERENCE to the element stored at rank <rank> of this container
+            ll rank;
+            if (tk.size() != 3 || !num(tk[2], rank) || static_cast<size_t>(rank) >= c.size()) return false;
+            mutating = true;
+            It src = c.begin();
+            for (ll i = 0; i < rank; ++i) ++src;
+            Ent e = ent(*src);
+            size_t before = c.size();
+            It it; bool inserted = true;
+            if (op == "insref") {
+                if constexpr (dup) it = c.insert(*src);
+                else { auto pr = c.insert(*src); it = pr.first; inserted = pr.second; }
+            } else {
+                it = c.insert((e.second & 1) ? c.end() : c.begin(), *src);
+                inserted = c.size() != before;
+            }
+            auto rp = rinsert(r, e.first, e.second);
+            check_insert_result(r, it, inserted, rp.second, rp.first, e.first, e.second);
+            os << "ins " << (inserted ? 1 : 0) << ' ' << pos(r, it);
+            ret = os.str();
+            return true;
+        }
         if (op == "ins" || op == "insh" || op == "ins2") {
             if (tk.size() != 4 || !num(tk[2], k) || !num(tk[3], v)) return false;
             if (op == "ins2" && !isMap) return false;
@@ -672,13 +726,25 @@ struct Runner : IRunner {
             ret = op;
             return true;
         }
-        if (op == "er1" || op == "era") {
+        if (op == "er1" || op == "era" || op == "er1ref" || op == "eraref") {
+            // ...ref: the key argument is a REFERENCE to the key stored at rank <rank> of this container
+            const bool byref = op.size() > 3;
             if (tk.size() != 3 || !num(tk[2], k)) return false;
+            Tracked keytmp(byref ? 0 : k);
+            const Tracked* kp = &keytmp;
+            if (byref) {
+                if (static_cast<size_t>(k) >= c.size()) return false;
+                It src = c.begin();
+                for (ll i = 0; i < k; ++i) ++src;
+                kp = &keyof(*src);
+                k = ent(*src).first;
+            }
+            const bool one = (op == "er1" || op == "er1ref");
             mutating = true;
             std::vector<Ent> before = contents(r);
             size_t rc = R.count(k);
-            if (op == "er1") {
-                bool b = c.erase_one(Tracked(k));
+            if (one) {
+                bool b = c.erase_one(*kp);
                 if (b != (rc > 0)) v01("erase_one returns " + std::to_string(b) + " with " + std::to_string(rc) + " equivalent entries present");
                 // which of the equivalent entries went away?  remove exactly that one from the reference
                 std::vector<Ent> after = contents(r);
@@ -691,7 +757,7 @@ struct Runner : IRunner {
                 }
                 os << "er1 " << (b ? 1 : 0);
             } else {
-                size_t n = c.erase(Tracked(k));
+                size_t n = c.erase(*kp);
                 size_t rn = R.erase(k);
                 if (n != rn) v01("erase(key) returns " + std::to_string(n) + ", std " + std::to_string(rn));
                 os << "era " << n;
@@ -711,6 +777,33 @@ struct Runner : IRunner {
             c.erase(it);
             if (!rerase_exact(r, victim)) v01("erase(iterator): the entry " + sent(victim) + " at rank " + std::to_string(rank) + " is not in the std container");
             ret = os.str();
+            return true;
+        }
+        if (op == "findref" || op == "lbref" || op == "ubref" || op == "countref") {
+            // the key argument is a REFERENCE to the key stored at rank <rank>; answered like the plain query
+            ll rank;
+            if (tk.size() != 3 || !num(tk[2], rank) || static_cast<size_t>(rank) >= c.size()) return false;
+            It src = c.begin();
+            for (ll i = 0; i < rank; ++i) ++src;
+            const Tracked& key = keyof(*src);
+            k = ent(*src).first;
+            std::string q = op.substr(0, op.size() - 3);
+            if (q == "count") {
+                size_t n = cc.count(key);
+                if (n != R.count(k)) v01("count(stored key) returns " + std::to_string(n) + ", std " + std::to_string(R.count(k)));
+                ret = "count " + std::to_string(n);
+                return true;
+            }
+            It it; typename Ref::iterator rit;
+            if (q == "find") { it = c.find(key); rit = R.find(k); }
+            else if (q == "lb") { it = c.lower_bound(key); rit = R.lower_bound(k); }
+            else { it = c.upper_bound(key); rit = R.upper_bound(k); }
+            ll rk; std::string p = pos(r, it, &rk);
+            if (q == "find" && dup) {
+                ll lo = rrank(r, R.lower_bound(k)), hi = rrank(r, R.upper_bound(k));
+                if (rk < lo || rk >= hi) v01("find(stored key) position " + std::to_string(rk) + " outside [" + std::to_string(lo) + "," + std::to_string(hi) + ")");
+            } else check_pos(q.c_str(), r, it, rit);
+            ret = q + " " + p;
             return true;
         }
         if (op == "find" || op == "lb" || op == "ub") {
